@@ -39,7 +39,8 @@ def rand_body(rng, later, size, pid, undef=True):
             return ev.role(rng.choice(['r1', 'r2']))
         if r < 0.9:
             pid[0] += 1
-            return ev.probe(pid[0], rng.choice([3, 4]), rng.choice(['f1', 'f2']), derived=rng.random() < 0.4)
+            ar = rng.choice([3, 4])
+            return ev.probe(pid[0], ar, rng.choice(['f1', 'f2']), derived=rng.choice([False, False, True, 'n'] if ar == 4 else [False, True]))
         return rng.choice([ev.T, ev.F])
     r = rng.random()
     if r < 0.25:
@@ -150,9 +151,13 @@ def run(ctx):
                  ('default', rng.choice(leafs))]
         dflt = rng.choice([None, ('name', 'a3'), ('opt', 'default')])
         sess = ec.Session(start, dflt, via=rng.choice(['rules_obj', 'dict']))
+        live_t, live_c = {}, dict(rng.choice(CREDS))
         for step in range(rng.randint(2, 5)):
             for _ in range(rng.randint(1, 2)):
-                sess.enforce({'by': 'name', 'name': rng.choice(['a1', 'a2', 'ghost', 'a3'])}, {}, rng.choice(CREDS), checklog=1)
+                sess.enforce({'by': 'name', 'name': rng.choice(['a1', 'a2', 'ghost', 'a3'])}, live_t, live_c, checklog=1, same_objects=True)
+                if rng.random() < 0.5:
+                    # the caller edits its credentials in place between two calls
+                    live_c['roles'] = [r for r in live_c.get('roles', []) if rng.random() < 0.5] + ([rng.choice(['r1', 'r2'])] if rng.random() < 0.6 else [])
             redefine = rng.choice(['a3', 'default', 'a2'])
             body = rng.choice(leafs) if redefine != 'a2' else rng.choice([ev.rule('a3'), ev.rule('ghost'), ev.Not(ev.rule('a3'))])
             sess.set_rules([(redefine, body)], overwrite=False, how=rng.choice(['rules_obj', 'dict']))
